@@ -11,7 +11,11 @@ spelling) across operators, fields, in-lists, set functions and sub-queries, joi
 filters parsed in one process - every literal occurrence must denote its own string (model Lang/StrFilter.v);
 in-lists by LENGTH and ORDER (c11l.go, Q and M cases): 1..21 and 32 / 64 / 257 literals (thorough up to 1000) written ascending,
 descending, shuffled, with duplicates, rotated, the probed literal at every position, every list value a stored row - membership
-in the set of denoted strings whatever the length and order (theorem in_list_length_order_independent)."""
+in the set of denoted strings whatever the length and order (theorem in_list_length_order_independent);
+values whose TEXT has a reading in another notation (c11n.go, Q and M cases): integer- / float- / bool- / null- / datetime-looking
+strings (007 +7 -0 1.0 1e3 TRUE ..), percent / form encodings (%20 %25 a+b=%3F, invalid ones), HTML entities, backslash / unicode /
+quoted-printable escapes, placeholders, Unicode normal forms and look-alikes - alone under every operator and left-hand side and
+in HOMOGENEOUS in-lists (every literal of the family), over rows holding the value and each of its readings."""
 import json
 import os
 
@@ -143,10 +147,24 @@ def q_describe(cf, fi, want, idx):
     if op in ("in", "notin") and decoys:
         vals = decoys[:k] + [s] + decoys[k:]
         denote = "the %d literals must denote %s" % (len(vals), ", ".join(repr(v) for v in vals[:24]) + (" .." if len(vals) > 24 else ""))
+    instead = q_instead(cf, want, got)
     return ("filter %r: %s, so the row holding %s must %sbe selected, but it is%s (rows selected %s, "
-            "expected %s)" % (qtext if len(qtext) <= 600 else qtext[:600] + " ..", denote, shown, "" if want[idx] == "1" else "not ",
-                              " not" if want[idx] == "1" else "", got if len(got) <= 80 else got[:80] + "..",
-                              want if len(want) <= 80 else want[:80] + ".."))
+            "expected %s)%s" % (qtext if len(qtext) <= 600 else qtext[:600] + " ..", denote, shown, "" if want[idx] == "1" else "not ",
+                                " not" if want[idx] == "1" else "", got if len(got) <= 80 else got[:80] + "..",
+                                want if len(want) <= 80 else want[:80] + "..", instead))
+
+
+def q_instead(cf, want, got):
+    """= / in on a scalar path: the rows that are selected although they hold another string - what the literal is read as"""
+    path, op, ctx, esc, s, k, decoys, rows = q_parse(cf)
+    if op not in ("eq", "in") or ctx == "n" or path in ("any", "all", "anyfk") or len(got) != len(want) or len(rows) != len(want):
+        return ""
+    if not any(w == "1" and g == "0" for w, g in zip(want, got)):
+        return ""
+    wrong = [repr(unhex(r)) for r, w, g in zip(rows, want, got) if w == "0" and g == "1" and r != "~"]
+    if not wrong:
+        return ""
+    return "; selected instead: the row%s holding %s - the literal is read as another string" % ("s" if len(wrong) > 1 else "", ", ".join(wrong[:4]))
 
 
 def q_shrink_candidates(cf, idx):
@@ -826,10 +844,19 @@ def main(argv):
     for key, lst in sorted(q_viol.items()):
         case, i, want, idx = min(lst, key=lambda v: q_size(v[0]))
         small = None if c.replay else q_shrink(c, harness, case.split(), idx)
+        first = ""
         if small is not None:
+            if not q_instead(small[0].split(), small[2], (small[1].split() + [""])[1]):
+                # the one-row replay cannot show which OTHER string the literal is read as: take it from the unshrunk cases
+                for case2, i2, want2, _ in sorted(lst, key=lambda v: q_size(v[0]))[:200]:
+                    note = q_instead(case2.split(), want2, (i2.split() + [""])[1])
+                    if note:
+                        qt = unhex(i2.split()[2]).decode("utf-8", "replace") if len(i2.split()) > 2 else "?"
+                        first = " (e.g. filter %r%s)" % (qt[:200], note)
+                        break
             case, i, want, idx = small
-        c.violation(key, "%s%s [%d failing cases of this kind]" % (q_describe(case.split(), i.split(), want, idx),
-                                                                    q_list_note(c, harness, case.split()), len(lst)),
+        c.violation(key, "%s%s%s [%d failing cases of this kind]" % (q_describe(case.split(), i.split(), want, idx),
+                                                                      q_list_note(c, harness, case.split()), first, len(lst)),
                     dict(case=case, impl=i, expected=want, value=repr(unhex(case.split()[5])),
                          query=(unhex(i.split()[2]).decode("utf-8", "replace") if len(i.split()) > 2 else None)))
     if c.replay:
@@ -853,6 +880,13 @@ def main(argv):
                      "ascending / descending / shuffled / duplicates / rotated / one swap, the literal of s at every position, in and "
                      "not in, letters / ids / prefixes incl. the empty string / long common prefix / mixed values, rows = every list "
                      "value + non-members around the smallest, median and largest. "
+                     "Values with a reading in another notation (Q and M cases): 10 families (integer-looking incl. leading zeros / "
+                     "plus sign / -0 / int64 bounds, other number spellings, floats, bool / null words, datetimes, valid percent "
+                     "escapes, invalid / lone percent and plus signs, HTML entities, backslash / unicode / quoted-printable escapes "
+                     "and placeholders, Unicode normal forms / look-alikes / invisible characters), every value under 12 operators x "
+                     "name + ast symbol + 2 of the other 5 left-hand sides (thorough: all 7), homogeneous in-lists of 2-4 literals of "
+                     "the family with s at every position, rows = s, its near misses, its readings by strconv / url / html / time, "
+                     "its relatives in the family. "
                      "Non-trivial: contains a backslash, "
                      "quote or control character (L), a backslash (T), any body (B), any expressible E case, a Q / M case whose "
                      "oracle selects some rows and rejects others; distinct by case text"
